@@ -12,23 +12,27 @@ open GilVerif.Gen.C10 GilVerif.Model.C10 GilVerif.Lemmas.C10
 
 theorem C10_align_spec (v a : Int) (hv : 0 ≤ v) (ha : 0 < a) (hfit : v + a < 18446744073709551616) :
     align v a % a = 0 ∧ v ≤ align v a ∧ align v a < v + a := by
-  unfold align
   have hr0 : 0 ≤ v % a := Int.emod_nonneg _ (by omega)
   have hr1 : v % a < a := Int.emod_lt_of_pos _ ha
-  have e1 : (a - v % a) % 18446744073709551616 = a - v % a := Int.emod_eq_of_lt (by omega) (by omega)
-  rw [e1]
   have ht0 : 0 ≤ (a - v % a) % a := Int.emod_nonneg _ (by omega)
   have ht1 : (a - v % a) % a < a := Int.emod_lt_of_pos _ ha
-  have e2 : (v + (a - v % a) % a) % 18446744073709551616 = v + (a - v % a) % a := Int.emod_eq_of_lt (by omega) (by omega)
-  rw [e2]
+  -- the sum is a multiple of the alignment
+  have key : (v + (a - v % a) % a) % a = 0 := by
+    rw [Int.add_emod, Int.emod_emod_of_dvd _ (Int.dvd_refl a)]
+    by_cases h : v % a = 0
+    · rw [h]; simp
+    · have e3 : (a - v % a) % a = a - v % a := Int.emod_eq_of_lt (by omega) (by omega)
+      rw [e3]
+      have : v % a + (a - v % a) = a := by omega
+      rw [this]; simp
+  -- form independent part: unfold (and inline named temporaries), drop the size_t wraps that cannot wrap, finish linearly
+  unfold align
+  try simp only []
+  generalize hr : v % a = r at *
+  simp (disch := omega) only [Int.emod_eq_of_lt]
+  generalize ht : (a - r) % a = t at *
   refine ⟨?_, by omega, by omega⟩
-  rw [Int.add_emod, Int.emod_emod_of_dvd _ (Int.dvd_refl a)]
-  by_cases h : v % a = 0
-  · rw [h]; simp
-  · have e3 : (a - v % a) % a = a - v % a := Int.emod_eq_of_lt (by omega) (by omega)
-    rw [e3]
-    have : v % a + (a - v % a) = a := by omega
-    rw [this]; simp
+  first | exact key | (rw [Int.add_comm]; exact key)
 
 example : align 13 8 = 16 ∧ align 16 8 = 16 ∧ align 0 4 = 0 := by decide
 
@@ -66,7 +70,6 @@ theorem C10_total_interleaved_spec (w h al mstep b2m ch : Int) (hh : 0 ≤ h)
     total_bytes_interleaved w h al mstep b2m ch =
       (row_size w al mstep b2m * h + b2m - 1) / b2m + (if al > 0 then al - 1 else 0) := by
   have hp : 0 ≤ row_size w al mstep b2m * h := Int.mul_nonneg hr0 hh
-  unfold total_bytes_interleaved interleaved_units
   have e1 : (row_size w al mstep b2m * (h % 18446744073709551616)) % 18446744073709551616 = row_size w al mstep b2m * h := by
     by_cases hz : row_size w al mstep b2m = 0
     · simp [hz]
@@ -77,18 +80,17 @@ theorem C10_total_interleaved_spec (w h al mstep b2m ch : Int) (hh : 0 ≤ h)
       have e0 : h % 18446744073709551616 = h := Int.emod_eq_of_lt hh (by omega)
       rw [e0]; exact Int.emod_eq_of_lt hp (by omega)
   have e2 : b2m % 18446744073709551616 = b2m := Int.emod_eq_of_lt (by omega) (by omega)
+  unfold total_bytes_interleaved interleaved_units
   simp only [e1, e2]
   generalize row_size w al mstep b2m * h = p at *
   have e3 : (p + b2m) % 18446744073709551616 = p + b2m := Int.emod_eq_of_lt (by omega) (by omega)
   have e4 : (p + b2m - 1) % 18446744073709551616 = p + b2m - 1 := Int.emod_eq_of_lt (by omega) (by omega)
-  rw [e3, e4]
   have hq0 : 0 ≤ (p + b2m - 1) / b2m := Int.ediv_nonneg (by omega) (by omega)
   have hq1 : (p + b2m - 1) / b2m ≤ p + b2m - 1 := Int.ediv_le_self _ (by omega)
-  split
-  next hpos =>
-    have e5 : (al - 1) % 18446744073709551616 = al - 1 := Int.emod_eq_of_lt (by omega) (by omega)
-    rw [e5]; exact Int.emod_eq_of_lt (by omega) (by omega)
-  next hnp => simp; exact Int.emod_eq_of_lt hq0 (by omega)
+  simp only [e3, e4]
+  generalize (p + b2m - 1) / b2m = q at *
+  -- form independent finish: case split on the alignment test, drop the wraps that cannot wrap, linear arithmetic
+  split <;> simp (disch := omega) only [Int.emod_eq_of_lt] <;> omega
 
 example : total_bytes_interleaved 3 2 4 3 1 3 = 27 ∧ total_bytes_interleaved 9 2 0 1 8 1 = 3 := by decide
 
